@@ -158,6 +158,7 @@ func resolveRoles(p *Program) {
 	rolesResolved, rolesRenamed = 0, 0
 	for _, r := range roleTable {
 		actual := ""
+		partOf := map[string]string{}
 		switch {
 		case r.param == -3:
 			rel := r.pkg
@@ -198,6 +199,7 @@ func resolveRoles(p *Program) {
 			}
 			cands := map[string]bool{}
 			var visit func(f *ssa.Function, prm *ssa.Parameter, depth int)
+			partOf = map[string]string{}
 			visit = func(f *ssa.Function, prm *ssa.Parameter, depth int) {
 				for _, b := range f.Blocks {
 					for _, in := range b.Instrs {
@@ -207,12 +209,15 @@ func resolveRoles(p *Program) {
 							if !ok {
 								continue
 							}
-							fr, okf := fieldRefOf(fa.X.Type(), fa.Field)
+							fr, okf := fieldRefOfAddr(fa)
 							if !okf || fr.Type != r.typ || fr.Pkg != r.pkg {
 								continue
 							}
 							if prm == nil || derivesFrom(x.Val, prm, 0) {
 								cands[fr.Field] = true
+								if in, okIn := fieldRefOf(fa.X.Type(), fa.Field); okIn && in.Type != fr.Type {
+									partOf[fr.Field] = in.Type // the field lives in a grouping sub-struct of r.typ
+								}
 							}
 						case *ssa.Call:
 							// delegation to a base registrar: follow the parameter one level
@@ -255,6 +260,10 @@ func resolveRoles(p *Program) {
 		}
 		toActual[r.pkg+"."+r.typ+"."+r.canonical] = actual
 		toCanonical[r.pkg+"."+r.typ+"."+actual] = r.canonical
+		if part, ok := partOf[actual]; ok {
+			toActual[r.pkg+"."+part+"."+r.canonical] = actual
+			toCanonical[r.pkg+"."+part+"."+actual] = r.canonical
+		}
 	}
 	// per-execution state of the retry executor, identified by kind: its only int counter, its only bool flag and
 	// its only duration; the fields may live in the executor or in a same-package struct it embeds by value
@@ -265,29 +274,22 @@ func resolveRoles(p *Program) {
 		if named == nil {
 			continue
 		}
-		var found []FieldRef
-		for _, fr := range execStateFields(p, spec.pkg, named) {
-			on := p.NamedType(spec.pkg, fr.Type)
-			if on == nil {
-				continue
-			}
-			s := on.Underlying().(*types.Struct)
-			for i := 0; i < s.NumFields(); i++ {
-				if s.Field(i).Name() == fr.Field && types.TypeString(s.Field(i).Type(), nil) == spec.kind {
-					found = append(found, fr)
-				}
+		var found []stateField
+		for _, sf := range execStateFieldsEx(p, spec.pkg, named) {
+			if types.TypeString(sf.Typ, nil) == spec.kind {
+				found = append(found, sf)
 			}
 		}
 		if len(found) != 1 {
 			continue
 		}
 		rolesResolved++
-		if found[0].Field != spec.canonical {
+		if found[0].Ref.Field != spec.canonical {
 			rolesRenamed++
 		}
-		for _, tn := range []string{"executor", named.Obj().Name(), found[0].Type} {
-			toActual[spec.pkg+"."+tn+"."+spec.canonical] = found[0].Field
-			toCanonical[spec.pkg+"."+tn+"."+found[0].Field] = spec.canonical
+		for _, tn := range []string{"executor", named.Obj().Name(), found[0].Part} {
+			toActual[spec.pkg+"."+tn+"."+spec.canonical] = found[0].Ref.Field
+			toCanonical[spec.pkg+"."+tn+"."+found[0].Ref.Field] = spec.canonical
 		}
 	}
 }
@@ -736,9 +738,27 @@ func funcRoles() []funcRole {
 		{"circuitbreaker.newClosedState", func(p *Program) *ssa.Function {
 			return firstUnexportedCallee(p, "circuitbreaker.(*config).Build", false, func(f *ssa.Function) bool { return f.Signature.Recv() == nil })
 		}},
-		viaExported("failsafehttp.doRequest", "failsafehttp.(*roundTripper).RoundTrip", ""),
 		{"failsafehttp.bodyReader", func(p *Program) *ssa.Function {
-			return firstUnexportedCallee(p, "failsafehttp.doRequest", false, func(f *ssa.Function) bool { return f.Signature.Recv() == nil })
+			// the only package-level function of the adapter that turns a value into a body-producing function:
+			// func(any) (func() (io.Reader, error), error)
+			var found *ssa.Function
+			for _, f := range p.Funcs {
+				if f.Pkg == nil || f.Pkg.Pkg.Name() != "failsafehttp" || f.Parent() != nil || f.Signature.Recv() != nil {
+					continue
+				}
+				sig := f.Signature
+				if sig.Params().Len() != 1 || sig.Results().Len() != 2 {
+					continue
+				}
+				if _, isFn := sig.Results().At(0).Type().Underlying().(*types.Signature); !isFn {
+					continue
+				}
+				if found != nil {
+					return nil
+				}
+				found = f
+			}
+			return found
 		}},
 		{"util.errorAs", func(p *Program) *ssa.Function {
 			return firstUnexportedCallee(p, "util.ErrorTypesMatch", false, func(f *ssa.Function) bool { return f.Signature.Results().Len() == 1 && f.Signature.Params().Len() == 2 })
